@@ -94,7 +94,7 @@ PROPS['C09'] = dict(
           'C09_unquote_guard: the quote-stripping slice is only taken on a terminated token of length >= 2. Termination: the model is '
           'total with fuel; that the initial fuel is never exhausted (every loop iteration / recursive production consumes a token) '
           'is proved in Mkdb/Proofs/Fuel.lean when present in the audit list, otherwise observed (no `.fuel` outcome on any run). '
-          'Tie: the panic-site inventory of sql/*.go and the token table are re-extracted every run; scanner tokens, parse outcome '
+          'Limit of the claim: the theorems bound the recursion of the model by fuel linear in the input, the Go stack is finite - a statement of millions of nested OR / AND terms (25 MB of text) overflows it in the parser, two million terms in the evaluator; no check generates inputs of that size, the claim is for inputs whose nesting the Go stack holds (about a million terms). Tie: the panic-site inventory of sql/*.go and the token table are re-extracted every run; scanner tokens, parse outcome '
           'class, error kind and AST are compared with the real scanner+parser on all token sequences of length <= 2-3 over the full '
           'vocabulary, every truncation and mutation of generated statements, unterminated quotes, huge numbers, random bytes incl. '
           'invalid UTF-8 and >1024-byte inputs, under a watchdog.',
@@ -138,7 +138,7 @@ PROPS['C20'] = dict(
           'Mkdb/Proofs/Console.lean is in the audit list - split_wf (a buffer of well-formed statements separated by blanks splits into '
           'exactly those statements, a semicolon inside quotes does not split), run_eq_split (for every key sequence of printable keys '
           'and Enters the concatenation of all submissions equals the quote-aware split of everything typed with each Enter read as '
-          'one space) and C20_submit (the console hands over exactly the typed statements, once each, in order). Tie: the model is '
+          'one space) and C20_submit (the console hands over exactly the typed statements, once each, in order). Since repair b94330c the theorems hold for entries of any length (they had carried keys.length <= 4096, the excluded point of which was a defect). Exercised, not proved: the key decoder below handleKey (a typed U+FFFD, repaired in 1ceb9e2). Three known findings bound the claim: control characters and line breaks inside a quoted literal are not preserved, SQL comments are not understood by the line joiner and the splitter. Tie: the model is '
           'compared with the real Terminal.ReadLine (in-package driver) on statement lists with semicolons / other quotes / spaces in '
           'literals under every-space and random line breakings, several statements per line, unfinished input, blank lines, ignored '
           'control keys and a line at the 4096-rune limit; the judge compares the submissions with the typed statement list.',
@@ -239,7 +239,7 @@ PROPS['C18'] = dict(
           'every SELECT of a shape the parser produces, the model of EvaluateSelect returns rows or an error value; the only panic '
           'left is the ORDER BY comparator meeting two non-NULL values of different types in one column, excluded on typed columns by '
           'C18_sort_safe; C09_total covers the front end. C18_dml_ddl_never_crash: for every database state related to a plain database (catalog invariant, any number of tables of any size and depth) and every CREATE TABLE / INSERT / UPDATE / DELETE the parser can produce that does not address the two catalog tables by name, the engine model returns ok or an error value - no panic, no unmodelled path, no fuel exhaustion (how the model would show a hang) - and a refused statement leaves the log alone (C18_dml_ddl_total); side conditions: literals that fit their Go types, 64-level fuel and offsets below 2^63 for INSERT and CREATE. '
-          'Not covered by a theorem: the session states (no USE / failed USE: C17 theorems and sess runs), statements addressed at sys_pages / sys_schema themselves (correspondence only). Tie: panic-site inventory of '
+          'Not covered by a theorem: the session states (no USE / failed USE: C17 theorems and sess runs), statements addressed at sys_pages / sys_schema themselves (correspondence only). Limit of the claim: the theorems bound the recursion of the model by fuel linear in the input, the Go stack is finite - a statement of millions of nested OR / AND terms (25 MB of text) overflows it in the parser, two million terms in the evaluator; no check generates inputs of that size, the claim is for inputs whose nesting the Go stack holds (about a million terms). Tie: panic-site inventory of '
           'engine/*.go re-extracted every run; type-confused, NULL-bearing and ill-formed queries run under recover() and a watchdog.',
     note=EXEC_NOTE, assumptions=EXEC_ASSUME,
     rule='per database 46 fixed ill-typed / ill-formed queries (AVG over varchar/bool/NULL, ORDER BY over NULLs, unknown / ambiguous / '
